@@ -50,7 +50,8 @@ def rich_tree(C, rng):
     return b.witness(C).to_etree()
 
 
-UNKNOWN = ["FOO", "INTU.BID", "INTU.AGG", "XYZZY", "A.B"]
+# unknown to every aggregate - including names that happen to be attributes of the model classes or of list
+UNKNOWN = ["FOO", "INTU.BID", "INTU.AGG", "XYZZY", "A.B", "COUNT", "INDEX", "APPEND", "SORT", "SPEC", "GROOM", "ELEMENTS", "COPY", "TO_ETREE", "STATEMENTS", "TRANSACTIONS"]
 
 
 def unknown_child(rng, C):
